@@ -35,6 +35,19 @@ CORE = "dask/array/core.py"
 RC = "dask/array/rechunk.py"
 
 
+def stage_output_name(ctx):
+    """DELEG.rechunk-stage.name (C23, C30): a rechunk stage returns the name its blocks are stored under."""
+    f = ctx.model.module("dask/array/_array_expr/_rechunk.py").func("_compute_rechunk")
+    rs = returns(f)
+    ok = len(rs) == 1 and isinstance(rs[0].value, ast.Tuple) and isinstance(rs[0].value.elts[0], ast.Name)
+    if ok:
+        nm = rs[0].value.elts[0].id
+        keyed = find(f"key = ({nm},) + new_idx", f)
+        rebinds = [a for a in ast.walk(f) if isinstance(a, ast.Assign) and any(isinstance(t, ast.Name) and t.id == nm for t in a.targets) and any(isinstance(l, (ast.For, ast.While)) for l in enclosing_loops(a))]
+        ok = len(keyed) == 1 and not rebinds and bool(find("x2[key] = M_v", f))
+    ctx.ob("DELEG.rechunk-stage.name", f, "_compute_rechunk (expression engine) returns the name under which it stored the new blocks (key = (name,) + new_idx), not a loop variable", ok, "" if ok else "the next stage of a multi-stage plan is wired to keys that do not exist: every multi-stage rechunk fails at compute")
+
+
 def check(ctx):
     model = ctx.model
     core = model.module(CORE)
@@ -122,6 +135,7 @@ def check(ctx):
     upd = find("largest_block_size = largest_block_size * max(c) // largest_width", fmr)
     ok = len(adopt) == 1 and len(upd) == 1 and control_equivalent(fmr, adopt[0][0], upd[0][0])
     ctx.ob("PAIR.merge-plan.bookkeeping", fmr, "largest_block_size is updated exactly when the partial merge is adopted (chunks[dim] = c)", ok, "" if ok else "the size estimate moves without the chunks: later merges are rejected/accepted against a wrong size and the planner's own consistency assertion fails for valid targets")
+    stage_output_name(ctx)
 
 
 VARIANTS = [
